@@ -233,6 +233,82 @@ theorem denotesB_iff (dt : DType F) (prev : Option (PVal F)) (o r : PVal F) :
 theorem wireDenotesB_iff (dt : DType F) (j : JVal F) (v : PVal F) :
     wireDenotesB dt j v = true ↔ WireDenotes dt j v := decide_eq_true_iff
 
+/-! ## a `change` request: the glue around `import_value` and `validate`
+
+`changeValue dt j held` is what the dispatcher and the write wrapper do with the data of a `change` request
+for a parameter holding `held` (import, validate against `held`, validate once more). -/
+
+/-- the value stored by a `change` request lies in the declared value set -/
+theorem change_sound (dt : DType F) (hwf : dt.WF) (j : JVal F) (held r : PVal F)
+    (h : changeValue dt j held = .ok r) : InSet dt r := by
+  unfold changeValue at h
+  split at h
+  · cases h
+  · exact validate_sound dt hwf _ none (fun p hp => by cases hp) r h
+
+/-- a `change` request answers with a value or a bad-value error -/
+theorem change_total (dt : DType F) (j : JVal F) (held : PVal F) (c : String) :
+    changeValue dt j held ≠ .error (.other c) := by
+  unfold changeValue
+  split
+  · rename_i e he
+    intro hc
+    injection hc with hc
+    exact accept_total dt j (some held) c (by rw [he, hc])
+  · exact validate_total dt _ none c
+
+/-- the second validation (in the write wrapper) changes nothing: the value stored and reported is the value
+`import_value` + `validate(previous = value held)` accepted - under the carrier property `SnapIdem` -/
+theorem change_eq_accept (hsnap : SnapIdem F) (dt : DType F) (hwf : dt.WF) (j : JVal F) (held : PVal F)
+    (hheld : Shaped dt held) : changeValue dt j held = acceptWire dt j (some held) := by
+  unfold changeValue
+  cases h : acceptWire dt j (some held) with
+  | error e => rfl
+  | ok r =>
+    simp only
+    unfold acceptWire at h
+    split at h
+    · cases h
+    · exact (revalidate_unchanged_partial hsnap dt hwf _ (some held)
+        (fun p hp => by injection hp with hp; rw [← hp]; exact hheld) r h).1
+
+/-- the full clause for a `change` request -/
+def change_ok_statement : Prop :=
+  ∀ (F : Type) [FloatOps F] [LawfulFloatOps F] (dt : DType F), dt.WF → ∀ (j : JVal F) (held : PVal F), Shaped dt held →
+    ∀ r, changeValue dt j held = .ok r → ChangeOK dt j held (.ok r)
+
+/-- proved under `SnapIdem F` (needed only for "denotes the value offered": without it the stored value is known
+to denote the value accepted by the first validation, not the offer itself); `change_sound` and `change_total`
+need no hypothesis -/
+theorem change_ok_partial (hsnap : SnapIdem F) (dt : DType F) (hwf : dt.WF) (j : JVal F) (held : PVal F)
+    (hheld : Shaped dt held) (r : PVal F) (h : changeValue dt j held = .ok r) : ChangeOK dt j held (.ok r) := by
+  refine ⟨change_sound dt hwf j held r h, ?_⟩
+  rw [change_eq_accept hsnap dt hwf j held hheld] at h
+  exact accept_denotes dt hwf j (some held) (fun p hp => by injection hp with hp; rw [← hp]; exact hheld) r h
+
+/-- the monitor of the `change` clause is sound: an empty verdict means the clause holds for that outcome -/
+theorem judgeChange_sound (dt : DType F) (j : JVal F) (held : PVal F) (hint : Option (PVal F)) (out : Outcome F)
+    (h : judgeChange dt j held hint out = []) : ChangeOK dt j held out := by
+  cases out with
+  | bad => trivial
+  | other c => simp [judgeChange] at h
+  | ok r =>
+    simp only [judgeChange, List.append_eq_nil_iff] at h
+    obtain ⟨h1, h2⟩ := h
+    have hin : inSetB dt r = true := by
+      by_cases hb : inSetB dt r = true
+      · exact hb
+      · simp [hb] at h1
+    refine ⟨inSetB_sound dt r hin, ?_⟩
+    cases hint with
+    | none => simp at h2
+    | some v =>
+      simp only at h2
+      by_cases hb : (wireDenotesB dt j v && denotesB dt (some held) v r) = true
+      · simp only [Bool.and_eq_true] at hb
+        exact ⟨v, (wireDenotesB_iff dt j v).1 hb.1, (denotesB_iff dt (some held) v r).1 hb.2⟩
+      · simp [hb] at h2
+
 /-! ## non-vacuity: the exact carrier `Rat` is lawful, and a nested tree over it -/
 
 /-- a struct of an array of scaled values, a double with a relative tolerance and an enum; member `b` optional -/
@@ -320,6 +396,27 @@ example : ∀ v prev r, (∀ p, prev = some p → Shaped (.scaled (1/10 : Rat) (
     validate (F := Rat) (.scaled (1/10) (3/10) 10 (1/10) 0) r none = .ok r ∧
     validate (F := Rat) (.scaled (1/10) (3/10) 10 (1/10) 0) r (some r) = .ok r :=
   fun v prev r hp h => revalidate_unchanged_rat _ (by simp only [DType.WF]; decide +kernel) v prev hp r h
+
+/-- a `change` request on the example (hypotheses of `change_sound`, `change_ok_partial`, `change_eq_accept` met):
+the node stores the merged struct; the monitor accepts that outcome with the imported value as witness, and flags
+a stored value outside the limits (`b = 50`) -/
+example : ∃ r, changeValue exTree exWire exPrev = .ok r ∧ ChangeOK exTree exWire exPrev (.ok r) ∧
+    PVal.same r exResult = true := by
+  have hb : (match changeValue exTree exWire exPrev with
+      | .ok r => PVal.same r exResult
+      | _ => false) = true := by decide +kernel
+  cases h : changeValue exTree exWire exPrev with
+  | error e => rw [h] at hb; cases hb
+  | ok r =>
+    rw [h] at hb
+    exact ⟨r, rfl, change_ok_partial rat_snapIdem exTree exTree_wf exWire exPrev (shaped_of_inSet _ _ exPrev_inSet) r h, hb⟩
+
+example : (match importValue exTree exWire with
+    | .ok v => (judgeChange exTree exWire exPrev (some v) (.ok exResult)).isEmpty &&
+        (judgeChange exTree exWire exPrev (some v) (.ok exHeld)).contains "inset:change" &&
+        (judgeChange exTree exWire exPrev none (.ok exResult)).contains "denotes:change"
+    | _ => false) = true := by
+  decide +kernel
 
 /-- a rejected request: a JSON string offered to the scaled elements is a bad-value error, not a number -/
 example : (match acceptWire exTree (.obj [("a", .arr [.str "5"]), ("c", .int 1)]) none with
